@@ -18,7 +18,16 @@ def describe(line, verdict, case_json):
             d["dist"] = "HypergeometicDist{N:%d, K:%d, Draws:%d}" % (line[3], line[4], line[5])
             hdr = dict(zip(["Mean", "Variance", "Bounds.lo", "Bounds.hi", "Step"], map(_f, line[6:11])))
             items = line[12:]
-        d["status"] = {0: "returned", 2: "panicked"}.get(status, status)
+        d["status"] = {0: "returned", 2: "panicked", 3: "two passes over the same (distribution, k) in one process differ in some bit"}.get(status, status)
+        cj = case_json
+        if isinstance(cj, (str, bytes)):
+            try:
+                import json
+                cj = json.loads(cj)
+            except Exception:
+                cj = None
+        if isinstance(cj, dict) and cj.get("pre"):
+            d["evaluated_before_in_the_same_process"] = cj["pre"]
         d["observed_header"] = hdr
         code, tag, pos = verdict[0], verdict[1], verdict[2]
         if code == 2 and pos >= 10:
